@@ -77,7 +77,9 @@ func c15Create(o opts, g *gen.G, syms *val.Syms, w *emit.Writer) error {
 				uuidN++
 				m.id = gen.UUIDn(300000 + uuidN)
 			case k < 7:
-				m.id = []string{"9lives", "a-b", "row 1"}[g.Intn(3)] // neither a name nor a uuid
+				// text that is no identifier (for the library every non-uuid text is a name); distinct per model:
+				// two inserts under one name are rightly refused
+				m.id = []string{"9lives", "a-b", "row 1"}[g.Intn(3)] + fmt.Sprint(ci, "_", i)
 			}
 			uuidN++
 			m.vals["name"] = val.VA(val.Str(fmt.Sprintf("c%d_%d", ci, i)))
